@@ -20,6 +20,7 @@ LEVEL_TEXT = ("Each of the five clauses of the statement plus equality with a fr
 LEVEL_NOTE = "specification recomputed through __getitem__ and load(save()); ties in count may be ordered arbitrarily (only count sequences are compared)"
 BUDGET = {"quick": 75, "thorough": 360}
 SHARDS = {"quick": 1, "thorough": 16}
+BOUNDSCHECK = True
 
 
 def check_query(run, i, ev, why):
